@@ -123,6 +123,10 @@ func (e *Engine) VerifyFunction(fn *ssa.Function) (rep *FuncReport) {
 	for i, fv := range fn.FreeVars {
 		v := r.symbolic(fmt.Sprintf("fv%d", i), fv.Type())
 		fr.vals[fv] = v
+		if _, isPtr := fv.Type().Underlying().(*types.Pointer); isPtr && v.Sort == "Int" {
+			// a captured variable is reached through a pointer to its (live) cell
+			r.assume("true", fmt.Sprintf("(not (= %s 0))", v.Term))
+		}
 	}
 	r.entry = st.clone()
 	if ct != nil {
